@@ -193,7 +193,7 @@ def e1Check (G : GCtx) (pi : PInfo) : Bool :=
   G.names.all fun n =>
     match G.cg.tbl.lookup pi.p.name n with
     | .ok sym =>
-      if sym.scope = "" then (match G.locOf pi G.lo n with | some a => decide (a < G.lo) | none => true) else true
+      if sym.scope = "" then (match G.locOf pi G.lo n with | some a => decide (a < G.lo) && G.gnames.contains n | none => true) else true
     | .error _ => true
 
 def e2Check (G : GCtx) (pi : PInfo) : Bool :=
@@ -256,5 +256,219 @@ def globalCheck (G : GCtx) (imgWords : Nat) : Bool :=
   decide (G.spv + 2 < memWords) && decide (2 ≤ G.lo) && decide (G.lo + X.maxDepth * G.smax ≤ G.spv) &&
   labelAddrCheck G && decide (imgWords ≤ G.lo) && decide (G.env.addr 1 = 4) &&
   decide ((G.gnames ++ G.pnames).Nodup)
+
+/-! ### Soundness of the check -/
+
+theorem locOf_names (G : GCtx) (pi : PInfo) (sp : Nat) (n : String) (a : Nat) (h : G.locOf pi sp n = some a) :
+    n ∈ G.names := by
+  unfold GCtx.locOf at h
+  cases hl : G.cg.tbl.lookup pi.p.name n with
+  | ok sym => exact lookup_name_mem _ _ _ _ hl
+  | error e => rw [hl] at h; simp at h
+
+theorem scopeGlobal_iff (G : GCtx) (pi : PInfo) (n : String) :
+    scopeGlobal G pi n = true ↔ ∃ sym, G.cg.tbl.lookup pi.p.name n = .ok sym ∧ sym.scope = "" := by
+  unfold scopeGlobal
+  cases hl : G.cg.tbl.lookup pi.p.name n with
+  | ok sym => simp
+  | error e => simp
+
+/-- Everything `GCtx.OK` asks for, from the two checks and the facts about the environment of the
+    reference semantics. -/
+theorem ok_of_checks (G : GCtx) (imgWords : Nat)
+    (hproc : ∀ pi ∈ G.procs, procCheck G pi = true) (hglob : globalCheck G imgWords = true)
+    (hgen : ∀ pi ∈ G.procs,
+      genStmt (G.ctxOf pi) (optStmt (annotS (fun _ => none) pi.p.body)) pi.gs1 = .ok (pi.code, pi.gs2))
+    (hbeyond : ∀ w, imgWords ≤ w → G.env.isCode w = false) (hcode1 : G.env.isCode 1 = false)
+    (resolve : ∀ f p, G.xc.genv.lookup f = some (.proc p) → ∃ pi ∈ G.procs, pi.p = p ∧ p.name = f)
+    (genv_vars : ∀ n, n ∈ G.gnames ↔ G.xc.genv.lookup n = some .var)
+    (no_vals : ∀ n w, G.xc.genv.lookup n ≠ some (.val w))
+    (pnames_ok : ∀ f p, G.xc.genv.lookup f = some (.proc p) → f ∈ G.pnames)
+    (pnames_mem : ∀ f ∈ G.pnames, ∃ p, G.xc.genv.lookup f = some (.proc p))
+    (genv_none : ∀ n, n ∉ G.gnames → n ∉ G.pnames → G.xc.genv.lookup n = none) : G.OK := by
+  unfold globalCheck at hglob
+  simp only [Bool.and_eq_true, decide_eq_true_eq, List.all_eq_true] at hglob
+  obtain ⟨⟨⟨⟨⟨⟨⟨⟨⟨g1, g2⟩, g3⟩, g4⟩, g5⟩, g6⟩, g7⟩, g8⟩, g9⟩, g10⟩ := hglob
+  have code_lo : ∀ w, G.lo ≤ w → G.env.isCode w = false := fun w hw => hbeyond w (by omega)
+  have hpc : ∀ pi ∈ G.procs,
+      (wfsCheck (KOf G pi G.lo 0 noHi) (G.iEpi pi) G.names = true ∧ e1Check G pi = true ∧ e2Check G pi = true ∧
+       atB G.env.ds pi.iPro (proDirs pi.kind pi.p.name (G.S pi)) = true ∧
+       atB G.env.ds (G.iBody pi) (lowerCode G.cg pi.code) = true ∧ atB G.env.ds (G.iEpi pi) (G.epi pi) = true ∧
+       pi.gs2.size ≤ G.S pi ∧ pi.p.locals.length ≤ pi.gs1.offset ∧
+       (∀ e ∈ pi.gs2.constMap, G.consts.contains e = true) ∧ G.S pi ≤ G.smax ∧
+       okS4 G.pnames pi.p.body = true ∧ pi.p.formals.all isValFormal = true ∧ pi.p.locals.all isVarDecl = true) ∧
+      ((∀ pj ∈ G.procs, (match G.cg.tbl.lookup pi.p.name pj.p.name with
+          | .ok sym => decide ((sym.type = .func) ↔ (pj.p.isFunc = true))
+          | .error _ => false) = true) ∧
+       (∀ n ∈ G.gnames, G.locOf pi G.lo n = G.gloc n ∧ scopeGlobal G pi n = true) ∧
+       (∀ k ∈ List.range pi.p.formals.length, (match pi.p.formals[k]? with
+          | some f => decide (G.locOf pi G.lo f.name = some (G.lo + G.S pi + pi.po + k)) && !scopeGlobal G pi f.name
+          | none => true) = true) ∧
+       (∀ k ∈ List.range pi.p.locals.length, (match pi.p.locals[k]? with
+          | some d => decide (k < G.S pi) && decide (G.locOf pi G.lo d.name = some (G.lo + G.S pi - 1 - k)) && !scopeGlobal G pi d.name
+          | none => true) = true) ∧
+       (∀ n ∈ pi.lnames, G.gnames.contains n = false ∧ G.pnames.contains n = false)) := by
+    intro pi hpi
+    have := hproc pi hpi
+    unfold procCheck at this
+    simp only [Bool.and_eq_true, decide_eq_true_eq, List.all_eq_true, Bool.not_eq_true'] at this
+    obtain ⟨⟨⟨⟨⟨⟨⟨⟨⟨⟨⟨⟨⟨⟨⟨⟨⟨p1, p2⟩, p3⟩, p4⟩, p5⟩, p6⟩, p7⟩, p8⟩, p9⟩, p10⟩, p11⟩, p12⟩, p13⟩, p14⟩, p15⟩, p16⟩, p17⟩, p18⟩ := this
+    exact ⟨⟨p1, p2, p3, p4, p5, p6, p7, p8, p9, p10, p11, List.all_eq_true.mpr p12, List.all_eq_true.mpr p13⟩, p14, p15,
+      fun k hk => by simpa using p16 k hk, fun k hk => by simpa using p17 k hk, p18⟩
+  -- the facts E1 / E2 of `wfs_shift`
+  have E1 : ∀ pi ∈ G.procs, ∀ n sym a, G.cg.tbl.lookup pi.p.name n = .ok sym → sym.scope = "" →
+      G.locOf pi G.lo n = some a → a < G.lo ∧ n ∈ G.gnames := by
+    intro pi hpi n sym a hl hs hloc
+    have h := (hpc pi hpi).1.2.1
+    unfold e1Check at h
+    simp only [List.all_eq_true] at h
+    have := h n (locOf_names G pi G.lo n a hloc)
+    rw [hl] at this
+    simp only [hs, if_true, hloc, Bool.and_eq_true, decide_eq_true_eq, List.contains_iff_mem] at this
+    exact this
+  have E2 : ∀ pi ∈ G.procs, ∀ n sym, G.cg.tbl.lookup pi.p.name n = .ok sym → located sym = true → sym.scope ≠ "" →
+      sym.stackOffset ≤ (pi.po : Int) + pi.p.formals.length := by
+    intro pi hpi n sym hl hloc hs
+    have h := (hpc pi hpi).1.2.2.1
+    unfold e2Check at h
+    simp only [List.all_eq_true] at h
+    have := h n (lookup_name_mem _ _ _ _ hl)
+    rw [hl] at this
+    simp only [hloc, hs, ne_eq, not_false_eq_true, decide_true, Bool.and_self, if_true, decide_eq_true_eq] at this
+    exact this
+  have wf0 : ∀ pi ∈ G.procs, (KOf G pi G.lo 0 noHi).WFS (G.iEpi pi) := by
+    intro pi hpi
+    exact wfsCheck_sound _ _ G.names (fun n a h => locOf_names G pi G.lo n a h) (hpc pi hpi).1.1
+  have hconst : ∀ v l j k, (v, l) ∈ G.consts → G.env.ds[j]? = some (.label k l) →
+      G.env.ds[j + 1]? = some (.data v) ∧ 2 ≤ G.env.addr j / 4 ∧ G.env.addr j / 4 < G.lo := by
+    intro v l j k hm hd
+    have := g3 (v, l) hm
+    unfold constCheck at this
+    simp only at this
+    rw [labelIdx_of_nodup _ j k l g1 hd] at this
+    simp only [Bool.and_eq_true, decide_eq_true_eq] at this
+    exact ⟨this.1.1, this.1.2, this.2⟩
+  exact {
+    wfs := fun pi hpi sp dep hi hlo hact =>
+      wfs_shift G pi 0 dep noHi hi (G.iEpi pi) (wf0 pi hpi) (fun n sym a h1 h2 h3 => (E1 pi hpi n sym a h1 h2 h3).1) (E2 pi hpi) code_lo g4 g5 sp hlo hact
+    nodup := g1
+    at_pro := fun pi hpi => atB_sound _ _ _ (hpc pi hpi).1.2.2.2.1
+    at_body := fun pi hpi => atB_sound _ _ _ (hpc pi hpi).1.2.2.2.2.1
+    at_epi := fun pi hpi => atB_sound _ _ _ (hpc pi hpi).1.2.2.2.2.2.1
+    gen := hgen
+    size_ok := fun pi hpi => (hpc pi hpi).1.2.2.2.2.2.2.1
+    nl_ok := fun pi hpi => (hpc pi hpi).1.2.2.2.2.2.2.2.1
+    consts_ok := fun pi hpi e he => by
+      have := (hpc pi hpi).1.2.2.2.2.2.2.2.2.1 e he
+      simpa using this
+    smax_ok := fun pi hpi => (hpc pi hpi).1.2.2.2.2.2.2.2.2.2.1
+    body_ok := fun pi hpi => (hpc pi hpi).1.2.2.2.2.2.2.2.2.2.2.1
+    formals_val := fun pi hpi => (hpc pi hpi).1.2.2.2.2.2.2.2.2.2.2.2.1
+    locals_var := fun pi hpi => (hpc pi hpi).1.2.2.2.2.2.2.2.2.2.2.2.2
+    resolve := resolve
+    callee_sym := by
+      intro pi hpi pj hpj
+      have := (hpc pi hpi).2.1 pj hpj
+      cases hl : G.cg.tbl.lookup pi.p.name pj.p.name with
+      | error e => rw [hl] at this; simp at this
+      | ok sym =>
+        rw [hl] at this
+        simp only [decide_eq_true_eq] at this
+        exact ⟨sym, rfl, this⟩
+    genv_vars := genv_vars
+    no_vals := no_vals
+    pnames_ok := pnames_ok
+    pnames_mem := pnames_mem
+    low_global := by
+      intro pi hpi sp n a hlo hloc hlt
+      rcases G.locOf_cases pi sp n a hloc with ⟨sym, hl, hs, hall⟩ | ⟨sym, c, hl, _, _, ha, _⟩
+      · exact (E1 pi hpi n sym a hl hs (hall G.lo)).2
+      · omega
+    gloc_ok := by
+      intro pi hpi sp n hn
+      obtain ⟨h1, h2⟩ := (hpc pi hpi).2.2.1 n hn
+      obtain ⟨sym, hl, hs⟩ := (scopeGlobal_iff G pi n).mp h2
+      cases hg : G.gloc n with
+      | none =>
+        have := g2 n hn
+        rw [hg] at this
+        simp at this
+      | some a =>
+        rw [hg] at h1
+        rcases G.locOf_cases pi G.lo n a h1 with ⟨_, _, _, hall⟩ | ⟨sym', c, hl', hs', _⟩
+        · exact hall sp
+        · rw [hl] at hl'
+          have := Except.ok.inj hl'
+          subst this
+          exact absurd hs hs'
+    gloc_lo := by
+      intro n hn a h
+      have := g2 n hn
+      rw [h] at this
+      simp only [Bool.and_eq_true, decide_eq_true_eq] at this
+      exact this.2
+    formal_loc := by
+      intro pi hpi sp k f hf
+      have hk : k ∈ List.range pi.p.formals.length := by
+        simp only [List.mem_range]
+        exact (List.getElem?_eq_some_iff.mp hf).1
+      have := (hpc pi hpi).2.2.2.1 k hk
+      rw [hf] at this
+      simp only [Bool.and_eq_true, decide_eq_true_eq, Bool.not_eq_true'] at this
+      obtain ⟨h1, h2⟩ := this
+      rcases G.locOf_cases pi G.lo f.name _ h1 with ⟨sym, hl, hs, _⟩ | ⟨sym, c, hl, _, _, ha, hall⟩
+      · have : scopeGlobal G pi f.name = true := (scopeGlobal_iff G pi f.name).mpr ⟨sym, hl, hs⟩
+        rw [h2] at this
+        simp at this
+      · rw [hall sp]
+        congr 1
+        omega
+    local_loc := by
+      intro pi hpi sp k d hd
+      have hk : k ∈ List.range pi.p.locals.length := by
+        simp only [List.mem_range]
+        exact (List.getElem?_eq_some_iff.mp hd).1
+      have := (hpc pi hpi).2.2.2.2.1 k hk
+      rw [hd] at this
+      simp only [Bool.and_eq_true, decide_eq_true_eq, Bool.not_eq_true'] at this
+      obtain ⟨⟨h0, h1⟩, h2⟩ := this
+      refine ⟨h0, ?_⟩
+      rcases G.locOf_cases pi G.lo d.name _ h1 with ⟨sym, hl, hs, _⟩ | ⟨sym, c, hl, _, _, ha, hall⟩
+      · have : scopeGlobal G pi d.name = true := (scopeGlobal_iff G pi d.name).mpr ⟨sym, hl, hs⟩
+        rw [h2] at this
+        simp at this
+      · rw [hall sp]
+        congr 1
+        omega
+    noshadow := by
+      intro pi hpi n hn
+      obtain ⟨h1, h2⟩ := (hpc pi hpi).2.2.2.2.2 n hn
+      exact genv_none n (by simpa using h1) (by simpa using h2)
+    gloc_ge := by
+      intro n hn a h
+      have := g2 n hn
+      rw [h] at this
+      simp only [Bool.and_eq_true, decide_eq_true_eq] at this
+      exact this.1
+    gloc_some := by
+      intro n hn
+      have := g2 n hn
+      cases hg : G.gloc n with
+      | none => rw [hg] at this; simp at this
+      | some a => exact ⟨a, rfl⟩
+    code_lo := code_lo
+    code_1 := hcode1
+    top := g4
+    lo_ge := g5
+    lo_def := g6
+    addr_lt := by
+      intro j k n hd
+      unfold labelAddrCheck at g7
+      simp only [List.all_eq_true, List.mem_range] at g7
+      have := g7 j (List.getElem?_eq_some_iff.mp hd).1
+      rw [hd] at this
+      simpa using this
+    const_lo := fun v l j k hm hd => (hconst v l j k hm hd).2.2
+    const_ge := fun v l j k hm hd => (hconst v l j k hm hd).2.1 }
 
 end Hex.C01s
